@@ -325,7 +325,11 @@ def run_check(prop_name, tier, seed):
     # longest first
     mpctx = mp.get_context("spawn")
     with mpctx.Pool(min(N_WORKERS, max(1, len(tasks))), maxtasksperchild=None) as pool:
-        outs = pool.map(_worker, tasks, chunksize=1)
+        outs = []
+        for o in pool.imap_unordered(_worker, tasks, chunksize=1):
+            outs.append(o)
+            if os.environ.get("VERIF_DEBUG"):
+                print(f"[debug] t={time.time() - t0:.1f}s task {o.get('part')} done in {o.get('wall', 0):.1f}s err={bool(o.get('error'))}", file=sys.stderr)
     merged = merge(outs)
 
     # replay tier (in-process, cheap)
